@@ -40,7 +40,7 @@ ASSUMPTIONS = [
   'with overwrite=True a crash in the middle of removing several newer steps may leave an intermediate newer step as latest; the oracle then requires latest to be a complete previously committed step (narrow reading, see DESIGN.md)',
   'save_checkpoint_multiprocess is covered on one host without multi-process arrays only; multi-host arrays, GCS paths, Orbax AsyncCheckpointer are not covered',
 ]
-PROBES = ['entry_multiprocess', 'source_mutated_after_async_save', 'restore_by_path', 'orbax_histories', 'half_deleted_old_step', 'leftover_tmp_after_crash', 'crash_after_commit', 'crash_before_commit', 'retry_rejected_committed', 'overwrite_removed_newer', 'keep_every_retained', 'chunked_leaf', 'async_latest_in_flight', 'sweep_points', 'policy_error_expected', 'torn_write', 'ioerror_runs']
+PROBES = ['entry_multiprocess', 'legacy_debris_in_orbax_dir', 'source_mutated_after_async_save', 'restore_by_path', 'orbax_histories', 'half_deleted_old_step', 'leftover_tmp_after_crash', 'crash_after_commit', 'crash_before_commit', 'retry_rejected_committed', 'overwrite_removed_newer', 'keep_every_retained', 'chunked_leaf', 'async_latest_in_flight', 'sweep_points', 'policy_error_expected', 'torn_write', 'ioerror_runs']
 
 GOOD_PREFIXES = ['checkpoint_', 'ckpt', 'a_b_', 'run1_', 'model.x']
 BAD_PREFIXES = ['m-', 'v2.', 'run1']  # end in '-', '.', digit: were glued to the step before fix 943634b
@@ -140,6 +140,8 @@ def generate(rs, tier):
   if g.random() < float(__import__('os').environ.get('VERIF_ORBAX_SHARE', ORBAX_SHARE)):  # env override: diagnostics only
     knobs.update(backend='orbax', io_mode='DEFAULT', asyn=False, chunk=2**30)
     asyn = False
+    # the directory may have been used with the legacy back-end before: an interrupted legacy save leaves <prefix>tmp
+    knobs['legacy_debris'] = g.random() < 0.3
   every_hist = g.choice([None, None, 2, 3, 5])
   if every_hist:
     knobs['pool'] = pool = [p for p in pool if p != 0] or [1, 2, 3]
@@ -363,6 +365,9 @@ class World:
     self.model_at_fault = {}
     self.int_steps = all(isinstance(s, int) for s in self.pool)
     self.names = {self.prefix + str(s): s for s in self.pool}
+    if k.get('legacy_debris') and not sub and model is None:
+      self.disk.put_file(self.dir + '/' + self.prefix + 'tmp', b'torn legacy checkpoint')
+      res.probe('legacy_debris_in_orbax_dir')
 
   # -- plumbing
   def install(self):
@@ -402,7 +407,7 @@ class World:
     return [n for n in self.disk.listdir(self.dir) if n.startswith(self.prefix)]
 
   def is_debris(self, n):
-    return n == self.prefix + 'tmp' if self.backend == 'legacy' else ORBAX_TMP in n
+    return n == self.prefix + 'tmp' if self.backend == 'legacy' else (ORBAX_TMP in n or (bool(self.k.get('legacy_debris')) and n == self.prefix + 'tmp'))
 
   # -- oracle (a): after a completed save / at quiescence
   def check_complete(self, where):
@@ -561,7 +566,7 @@ class World:
     tree = self.tree_of(ent)
     try:
       save = checkpoints.save_checkpoint
-      if self.k.get('entry') == 'save_checkpoint_multiprocess' and self.k['backend'] == 'legacy':
+      if self.k.get('entry') == 'save_checkpoint_multiprocess':
         save = checkpoints.save_checkpoint_multiprocess
         self.res.probe('entry_multiprocess')
       return save(
